@@ -91,7 +91,12 @@ Definition sess_step (s : sess) (a : act) : option (sess * bool) :=
   | StartAgain => Some (s, false)
   | PeerClose => if peer_open s then Some (set_clean (set_rcause (set_peer_open s false) true) false, false) else None
   | PeerRead => if peer_open s && negb (peer_reads s) then Some (set_peer_reads s true, false) else None
-  | PeerByte => if recvl s && negb (rcause s) && copen s && peer_open s then Some (set_rcvd s (S (rcvd s)), false) else None
+  | PeerByte =>                                     (* the peer writes one ordinary byte *)
+      if peer_open s then
+        if recvl s && negb (rcause s) && copen s
+        then Some (set_rcvd s (S (rcvd s)), false)  (* the read handler consumes it, the loop goes on *)
+        else Some (s, false)                        (* nobody reads any more: the handler is not called after the exit *)
+      else None
   | RecvFault k =>
       if match k with RHandlerErr | RPanic => peer_open s | _ => true end
       then Some (set_clean (set_rcause s true) false, false) else None
